@@ -100,6 +100,8 @@ func directivesSeq2(s string) iter.Seq2[string, string] {
 			if len(key) == 0 {
 				continue
 			}
+			// Directive names are case-insensitive (RFC 9111 §5.2).
+			key = strings.ToLower(key)
 			if !yield(key, value) {
 				return
 			}
